@@ -323,7 +323,9 @@ func runAG(c *Ctx) (obls []Obl) {
 			sig := (&Expr{Op: OpExtract, Args: []*Expr{next}, ID: 1}).String()
 			cv := (&Expr{Op: OpExtract, Args: []*Expr{next}, ID: 2}).String()
 			sorted := false
-			for _, ev := range callEvents(p, isCallTo("sort", "Ints")) {
+			for _, ev := range callEvents(p, func(e *Expr) bool {
+				return e.calleeIs("sort", "Ints") || (e.Op == OpCall && e.Fn != nil && e.Fn.Origin() != nil && calleePkg(e.Fn.Origin()) == "slices" && e.Fn.Origin().Name() == "Sort") || e.calleeIs("slices", "Sort")
+			}) {
 				if len(ev.Val.Args) == 2 && ev.Val.Args[1].String() == cv+".ids" {
 					sorted = true
 				}
